@@ -52,6 +52,47 @@ def index_histories(ctx, n, nops):
     return cases
 
 
+def session_histories(ctx, n):
+    """Histories that run over several sessions, each opened under the same configuration and each holding several
+    calls (writes followed by deletes of attributes that were there when the session began, and the other way round):
+    every configuration gets the same history."""
+    rng = random.Random(ctx.seed * 32452843 + 1919)
+    cases = []
+    for k in range(n):
+        names = ["n%d" % i for i in range(rng.choice([4, 6, 10]))]
+        ops, live = [], set()
+        for _ in range(rng.randint(12, 40)):
+            r = rng.random()
+            if r < 0.18:
+                ops.append({"op": "reopen", "n": "", "v": ""})
+            elif r < 0.45 and live:
+                nme = rng.choice(sorted(live))
+                ops.append({"op": "del", "n": nme, "v": ""})
+                live.discard(nme)
+            else:
+                nme = rng.choice(names)
+                ops.append({"op": "put", "n": nme, "v": rng.choice(["i32", "i8", "f64", "s7", "s40", "ai3", "i64"])})
+                live.add(nme)
+        for rb in RBS:
+            cases.append({"cfg": {"obj": "dataset", "sb": [2, 0, 3][k % 3], "pre": [0, 0, 7][k % 3], "style": k % 3, "rb": rb}, "ops": copy.deepcopy(ops)})
+    return cases
+
+
+def second_session_catalogue(thorough):
+    """Every second session of 2 (thorough: 3) calls over {write a, write b, write d, delete a, delete b, delete d} on a dataset that
+    holds small attributes a, b, c from a first session (compact storage), under every configuration."""
+    import itertools
+    alphabet = [("put", "a"), ("put", "b"), ("put", "d"), ("del", "a"), ("del", "b"), ("del", "d")]
+    cases = []
+    for ln in ((2, 3) if thorough else (2,)):
+        for seq in itertools.product(alphabet, repeat=ln):
+            ops = [{"op": "put", "n": x, "v": "i32"} for x in "abc"] + [{"op": "reopen", "n": "", "v": ""}]
+            ops += [{"op": o, "n": x, "v": "i32" if o == "put" else ""} for o, x in seq]
+            for rb in RBS:
+                cases.append({"cfg": {"obj": "dataset", "sb": 2, "pre": 0, "style": 0, "rb": rb}, "ops": copy.deepcopy(ops)})
+    return cases
+
+
 def run(ctx):
     thorough = ctx.tier == "thorough"
     # (b) selector: design model + generated decision sequences
@@ -122,6 +163,14 @@ def run(ctx):
                     if rng.random() < 0.35:
                         ops.append({"op": "toggle", "n": "", "v": rng.choice(TOGGLES)})
                 v["ops"] = ops
+            if i % 3 == 1 and v["cfg"]["obj"] == "dataset":
+                # the history continues in later sessions opened under the same configuration (several calls per session)
+                ops = []
+                for o in v["ops"]:
+                    if rng.random() < 0.3:
+                        ops.append({"op": "reopen", "n": "", "v": ""})
+                    ops.append(o)
+                v["ops"] = ops
             cases.append(v)
     # a nearly full index leaf under every configuration: here deferred deletion really defers (the leaf stays more than half full)
     # (without the histories that outgrow the attribute heap: that defect, recorded under C02, is the same in every configuration)
@@ -130,6 +179,9 @@ def run(ctx):
             v = copy.deepcopy(c)
             v["cfg"]["rb"] = rb
             cases.append(v)
+    cases += session_histories(ctx, 24 if thorough else 6) + second_session_catalogue(thorough)
+    for v in cases:
+        v["cfg"]["vsdef"] = True      # the driver also runs the history under the default configuration (DefItems in C02Trace)
     cpath = ctx.write_cases(cases)
     trace, out = ctx.drive("c02", cpath)
     H.log(out.strip())
